@@ -5,11 +5,11 @@ S = "/verif/seeded"
 res = {}
 if os.path.exists(os.path.join(S, "results.txt")):
     for l in open(os.path.join(S, "results.txt")):
-        m = re.match(r"(\S+) vs (\S+): exit=(\d+) violations=(\d+) wall=(\d+)s tree=(\S+) verif=(\S+) :: ?(.*)", l.strip())
+        m = re.match(r"(\S+) vs (\S+): exit=(\d+) violations=(\d+) wall=(\d+)s (?:seed=(\d+) )?tree=(\S+) verif=(\S+) :: ?(.*)", l.strip())
         if m:
             res.setdefault(m.group(1), []).append(dict(check=m.group(2), exit=int(m.group(3)), violation_lines=int(m.group(4)),
-                                                        wall_seconds=int(m.group(5)), repo_commit=m.group(6), verif_commit=m.group(7),
-                                                        first_message=m.group(8)))
+                                                        wall_seconds=int(m.group(5)), verif_seed=int(m.group(6) or 1), repo_commit=m.group(7),
+                                                        verif_commit=m.group(8), first_message=m.group(9)))
 for d in sorted(os.listdir(S)):
     mp = os.path.join(S, d, "meta.json")
     if not os.path.exists(mp):
